@@ -210,6 +210,19 @@ theorem corr_combine {ν : Type} (E : ν → K) (c1 c2 : K) (v : ν) (rest : Lis
 
 end corr
 
+/-- **merging two exponents of equal rate keeps both parts of the correlation function**, whatever
+their kinds (R, I, RI) and in whichever order they are listed -/
+theorem combine_parts {K : Type} [Field K] (a b : CExp K) :
+    (combine a b).parts = (a.parts.1 + b.parts.1, a.parts.2 + b.parts.2) := by
+  unfold combine
+  cases ha : a.kind <;> cases hb : b.kind <;> simp [CExp.parts, ha, hb]
+
+/-- … hence the complex coefficient `re + i·im` of the merged exponent is the sum of the two -/
+theorem combine_value {K : Type} [Field K] (i : K) (a b : CExp K) :
+    (combine a b).parts.1 + i * (combine a b).parts.2
+      = (a.parts.1 + i * a.parts.2) + (b.parts.1 + i * b.parts.2) := by
+  rw [combine_parts]; ring
+
 /-! ### trace of the system block -/
 section trace
 open Matrix
